@@ -154,6 +154,10 @@ pub struct LogicalOpts {
     pub concat_dup: bool,
     /// (loose / concat) list the content packs in the manifest in a seeded order instead of by id
     pub shuffle_manifest: bool,
+    /// (loose) where the content pack files live relative to the manifest: 0 next to it (bare file
+    /// name recorded), 1 in a sub-directory ("sub/<name>"), 2 in a sibling directory
+    /// ("../sib/<name>"), 3 next to it but recorded as "./<name>"
+    pub pack_location_style: u8,
     /// (loose / concat) pack ids in 1..=n_packs for which NO pack exists (bit p-1): content pack
     /// ids are chosen freely by the application and need not be contiguous
     pub absent_ids: u32,
@@ -238,7 +242,31 @@ pub enum Flavor {
     Random,
     MixedLowHigh,
     MixedHighLow,
+    /// starts with the magic number of a well-known file format (archives mostly store files that
+    /// already are zstd / xz / gzip / zip / png / jpeg ... files), then text or random bytes
+    SignedText,
+    SignedRandom,
 }
+
+/// Leading bytes of common (mostly compressed) file formats.
+pub const SIGNATURES: [&[u8]; 16] = [
+    b"\x28\xB5\x2F\xFD",                 // zstd
+    b"\xFD7zXZ\x00",                      // xz
+    b"\x1F\x8B\x08",                      // gzip
+    b"BZh9",                              // bzip2
+    b"PK\x03\x04",                        // zip
+    b"\x89PNG\r\n\x1a\n",                 // png
+    b"\xFF\xD8\xFF\xE0",                  // jpeg
+    b"\x04\x22\x4D\x18",                  // lz4 frame
+    b"\x5D\x00\x00\x80\x00",              // lzma alone
+    b"7z\xBC\xAF\x27\x1C",                // 7z
+    b"GIF89a",                            // gif
+    b"%PDF-1.7",                          // pdf
+    b"\x7FELF",                           // elf
+    b"jbkC",                              // a jubako container inside a jubako container
+    b"Rar!\x1A\x07",                      // rar
+    b"\x00\x00\x00\x20ftypisom",           // mp4
+];
 
 const WORDS: [&str; 12] = [
     "jubako ", "pack ", "cluster ", "entry ", "value ", "store ", "the ", "of ", "and ", "blob ",
@@ -274,11 +302,23 @@ pub fn gen_bytes(rng: &mut Rng, idx: usize, len: usize, flavor: Flavor) -> Vec<u
             v = rng.bytes(cut);
             fill_text(rng, &mut v, len);
         }
+        Flavor::SignedText => fill_text(rng, &mut v, len),
+        Flavor::SignedRandom => {
+            v = rng.bytes(len);
+        }
     }
-    // identity stamp so that a foreign blob is attributable
+    // identity stamp so that a foreign blob is attributable (after the file signature, if any)
+    let at = if matches!(flavor, Flavor::SignedText | Flavor::SignedRandom) {
+        let sig = SIGNATURES[(idx + rng.below(SIGNATURES.len() as u64) as usize) % SIGNATURES.len()];
+        let n = sig.len().min(v.len());
+        v[..n].copy_from_slice(&sig[..n]);
+        n
+    } else {
+        0
+    };
     let stamp = format!("#{:06}#", idx % 1_000_000);
-    let n = stamp.len().min(v.len());
-    v[..n].copy_from_slice(&stamp.as_bytes()[..n]);
+    let n = stamp.len().min(v.len() - at);
+    v[at..at + n].copy_from_slice(&stamp.as_bytes()[..n]);
     v
 }
 
@@ -349,6 +389,8 @@ pub fn gen_logical(rng: &mut Rng, p: &GenParams) -> Logical {
             Flavor::Random,
             Flavor::MixedLowHigh,
             Flavor::MixedHighLow,
+            Flavor::SignedText,
+            Flavor::SignedRandom,
         ]);
         let bytes = Arc::new(gen_bytes(rng, i, len, flavor));
         let hint = if p.homogeneous_hint {
@@ -730,6 +772,18 @@ pub fn plan_model(logical: &Logical) -> Model {
     model
 }
 
+/// The location recorded for content pack `p` of a loose container, relative to the directory of
+/// the manifest (see `LogicalOpts::pack_location_style`).
+pub fn pack_location(logical: &Logical, name: &str, p: u16) -> String {
+    let file = format!("{name}.c{p}.jbkc");
+    match (logical.packaging, logical.opts.pack_location_style) {
+        (Packaging::Loose, 1) => format!("sub/{file}"),
+        (Packaging::Loose, 2) => format!("../sib/{file}"),
+        (Packaging::Loose, 3) => format!("./{file}"),
+        _ => file,
+    }
+}
+
 /// Seeded, non-zero "free data" (application bytes the format carries in pack headers, index
 /// headers and, per pack, in the manifest): defaults of all zeros would make damage to them
 /// invisible to every observation.
@@ -808,7 +862,10 @@ fn build_inner(
                 if logical.opts.is_absent(p) {
                     continue;
                 }
-                let path = dir.join(format!("{name}.c{p}.jbkc"));
+                let path = dir.join(pack_location(logical, name, p));
+                if let Some(parent) = path.parent() {
+                    std::fs::create_dir_all(parent)?;
+                }
                 let mut cpc = creator::ContentPackCreator::new_with_progress(
                     utf8(&path),
                     jbk::PackId::from(p),
@@ -875,10 +932,9 @@ fn build_inner(
                 }
             }
             for (data, path) in pack_datas {
-                mpc.add_pack(
-                    data,
-                    loc(path.file_name().unwrap().to_str().unwrap().to_string()),
-                );
+                let _ = &path;
+                let p = data.pack_id.into_u64() as u16;
+                mpc.add_pack(data, loc(pack_location(logical, name, p)));
                 if let Some(d) = dir_data.take() {
                     mpc.add_pack(d, loc(format!("{name}.jbkd")));
                 }
@@ -933,7 +989,7 @@ fn build_inner(
             }
         }
         Packaging::BasicOne | Packaging::BasicTwo | Packaging::BasicNoConcat => {
-            assert!(logical.opts.absent_ids == 0 && !logical.opts.dir_not_first, "sparse ids / manifest order: loose and concat packagings only");
+            assert!(!logical.opts.dir_not_first && !logical.opts.is_absent(1), "manifest order / no pack 1: loose and concat packagings only");
             let mode = match logical.packaging {
                 Packaging::BasicOne => ConcatMode::OneFile,
                 Packaging::BasicTwo => ConcatMode::TwoFiles,
@@ -950,7 +1006,12 @@ fn build_inner(
             // content packs 2.. are "extra" packs written to their own atomic files and handed to
             // BasicCreator::finalize
             let mut extras: Vec<creator::ContentPackCreator<dyn creator::PackRecipient>> = Vec::new();
+            let mut extra_slot: HashMap<u16, usize> = HashMap::new();
             for p in 2..=logical.n_packs {
+                if logical.opts.is_absent(p) {
+                    continue;
+                }
+                extra_slot.insert(p, extras.len());
                 let path = dir.join(format!("{name}.x{p}.jbkc"));
                 let file: Box<dyn creator::PackRecipient> = creator::AtomicOutFile::new(utf8(&path))?;
                 extras.push(creator::ContentPackCreator::new_from_output_with_progress(
@@ -965,7 +1026,7 @@ fn build_inner(
             for (i, c) in logical.contents.iter().enumerate() {
                 let input = make_input(c, i, scratch, logical.aux_seed, opts)?;
                 let addr = if c.pack >= 2 {
-                    extras[c.pack as usize - 2].add_content(input, c.hint.to_jbk())?
+                    extras[extra_slot[&c.pack]].add_content(input, c.hint.to_jbk())?
                 } else {
                     bc.add_content(input, c.hint.to_jbk())?
                 };
@@ -984,7 +1045,9 @@ fn build_inner(
             bc.finalize(parts, extras)?;
             let mut files = expected_files(logical.packaging, dir, name);
             for p in 2..=logical.n_packs {
-                files.push(dir.join(format!("{name}.x{p}.jbkc")));
+                if !logical.opts.is_absent(p) {
+                    files.push(dir.join(format!("{name}.x{p}.jbkc")));
+                }
             }
             Ok(Built {
                 entry: out,
